@@ -14,6 +14,8 @@ import Driver.RenderOps
 import Driver.SvgOps
 import Driver.WasmOps
 import Driver.HistOps
+import Driver.FileOps
+import Driver.PixOps
 import FastQr.Model.Version
 import FastQr.Model.Classify
 import FastQr.Spec.Capacity
@@ -79,6 +81,8 @@ def handle (prop : String) (line : String) : String :=
       | "svg" => opSvg prop args res
       | "wasm" => opWasm args res
       | "hist" => opHist args res
+      | "file" => opFile args res
+      | "pix" => opPix args res
       | "threads" => opThreads args res
       | "wasmqr" => opWasmQr args res
       | _ => { spec := some s!"unknown-op:{op}" }
